@@ -13,9 +13,11 @@
 (*   st = "null" null of type ty                                           *)
 (*   st = "unk"  unknown with refinement rf                                *)
 (*   mk          sequence of mark names on THIS value (one layer)          *)
-(* Payloads: bool TRUE/FALSE; number N; string <<"a","b">> (one element    *)
-(*   per code point of the stored, normalized form); list/tuple/set        *)
-(*   sequences of values (sets: iteration order); map/object records.     *)
+(* Payloads are single-kind records so that any two values can be compared *)
+(* by TLC whatever their types: bool [b |-> TRUE]; number N (a record, see *)
+(* below); string [s |-> <<"a","b">>] (one element per code point of the   *)
+(* stored, normalized form); list/tuple/set [l |-> <<values>>] (sets: in   *)
+(* iteration order); map/object [m |-> [key |-> value]]; capsule [c |-> t].*)
 (* Numbers N: [q |-> i] is i/4; [inf |-> 1 | -1]; [lm |-> name] a named    *)
 (*   landmark; [dec |-> text] an opaque decimal (identity only).          *)
 (* Refinements rf: [null |-> "U"|"F"|"T"] plus optional lo, loInc, hi,     *)
@@ -58,27 +60,38 @@ Qn(i)  == [q |-> i]
 PInf   == [inf |-> 1]
 NInf   == [inf |-> -1]
 NumV(i) == K(TNum, Qn(i))
-StrV(s) == K(TStr, s)
-BoolV(b) == K(TBool, b)
+StrV(s) == K(TStr, [s |-> s])
+BoolV(b) == K(TBool, [b |-> b])
+SeqV(t, s) == K(t, [l |-> s])        \* list / set / tuple
+MapV(t, m) == K(t, [m |-> m])        \* map / object
+BoolOf(v) == v.v.b
+StrOf(v)  == v.v.s
+Elems(v)  == v.v.l
+Attrs(v)  == v.v.m
+SetElem(v, i, w) == [v EXCEPT !.v = [l |-> [Elems(v) EXCEPT ![i] = w]]]
+SetAttr(v, n, w) == [v EXCEPT !.v = [m |-> [Attrs(v) EXCEPT ![n] = w]]]
 
 IsKnown(v) == v.st = "k"
 IsNullV(v) == v.st = "null"
 IsUnk(v)   == v.st = "unk"
 
 (***************************************************************************)
-(* Number order.  Rank is defined for q, inf and lm numbers; dec numbers   *)
-(* have identity only.  A lattice step is 4 rank units, so that landmarks  *)
-(* strictly between two neighbouring quarters fit.                         *)
+(* Number order.  Forms: [q |-> i] is i/4; [n |-> a, d |-> b] is a/b with  *)
+(* b a power of two (every finite big.Float is dyadic); [inf |-> 1 | -1];  *)
+(* [lm |-> name] a named landmark; [dec |-> text] an opaque number with    *)
+(* identity only (no order).  "Small" numbers are compared exactly by      *)
+(* cross-multiplication (the projection keeps |q| <= 2^16, |a|,b <= 2^12   *)
+(* so that products stay inside TLC's 32-bit integers); landmarks beyond   *)
+(* the small range and the infinities are compared by coarse rank.         *)
 (***************************************************************************)
-QMAX == 67108864            \* |q| <= 2^26 on the lattice
-LMBASE == 536870912         \* 2^29: whole landmarks beyond the lattice
+LMBASE == 536870912         \* 2^29: whole landmarks beyond the small range
 INFRANK == 2000000000
 
-\* name -> [r: rank, whole: BOOLEAN, f64: exact in float64]
+\* name -> [r: coarse rank, whole, f64: exact in float64] (+ n, d for small landmarks)
 Landmarks ==
-  [ tenth      |-> [r |-> 2,  whole |-> FALSE, f64 |-> FALSE],   \* 0.1 parsed at 512 bits
-    third      |-> [r |-> 6,  whole |-> FALSE, f64 |-> FALSE],   \* 0.333... (1/3 at 512 bits)
-    mtenth     |-> [r |-> -2, whole |-> FALSE, f64 |-> FALSE],
+  [ tenth      |-> [r |-> 0,  whole |-> FALSE, f64 |-> FALSE, n |-> 1, d |-> 10],   \* 0.1 parsed at 512 bits
+    third      |-> [r |-> 0,  whole |-> FALSE, f64 |-> FALSE, n |-> 1, d |-> 3],    \* 1/3 at 512 bits
+    mtenth     |-> [r |-> 0, whole |-> FALSE, f64 |-> FALSE, n |-> -1, d |-> 10],
     i32max     |-> [r |-> LMBASE + 10, whole |-> TRUE, f64 |-> TRUE],   \* 2^31-1
     i32maxp    |-> [r |-> LMBASE + 11, whole |-> TRUE, f64 |-> TRUE],   \* 2^31
     u32max     |-> [r |-> LMBASE + 20, whole |-> TRUE, f64 |-> TRUE],   \* 2^32-1
@@ -105,18 +118,23 @@ Landmarks ==
     mf64max    |-> [r |-> -(LMBASE + 90), whole |-> TRUE, f64 |-> TRUE],
     mf64maxp   |-> [r |-> -(LMBASE + 91), whole |-> TRUE, f64 |-> FALSE] ]
 
-HasRank(n) == Has(n, "q") \/ Has(n, "inf") \/ (Has(n, "lm") /\ n.lm \in DOMAIN Landmarks)
-Rank(n) == IF Has(n, "q") THEN 4 * n.q
-           ELSE IF Has(n, "inf") THEN n.inf * INFRANK
-           ELSE Landmarks[n.lm].r
-NumLT(a, b) == Rank(a) < Rank(b)
-NumLE(a, b) == Rank(a) <= Rank(b)
+HasRank(n) == Has(n, "q") \/ Has(n, "d") \/ Has(n, "inf") \/ (Has(n, "lm") /\ n.lm \in DOMAIN Landmarks)
+IsSmallN(n) == Has(n, "q") \/ Has(n, "d") \/ (Has(n, "lm") /\ Landmarks[n.lm].r = 0)
+Nm(n) == IF Has(n, "q") THEN n.q ELSE IF Has(n, "d") THEN n.n ELSE Landmarks[n.lm].n
+Dn(n) == IF Has(n, "q") THEN 4 ELSE IF Has(n, "d") THEN n.d ELSE Landmarks[n.lm].d
+Coarse(n) == IF IsSmallN(n) THEN 0 ELSE IF Has(n, "inf") THEN n.inf * INFRANK ELSE Landmarks[n.lm].r
+NumLT(a, b) == IF IsSmallN(a) /\ IsSmallN(b) THEN Nm(a) * Dn(b) < Nm(b) * Dn(a) ELSE Coarse(a) < Coarse(b)
+NumLE(a, b) == IF IsSmallN(a) /\ IsSmallN(b) THEN Nm(a) * Dn(b) <= Nm(b) * Dn(a) ELSE Coarse(a) <= Coarse(b)
+NumSame(a, b) == NumLE(a, b) /\ NumLE(b, a)     \* numerically equal (ranked numbers)
 NumEQ(a, b) == a = b               \* canonical projection: one spelling per number
 IsInfN(n)   == Has(n, "inf")
 IsWholeN(n) == IF Has(n, "q") THEN n.q % 4 = 0
+               ELSE IF Has(n, "d") THEN n.d = 1
                ELSE IF Has(n, "lm") THEN Landmarks[n.lm].whole ELSE FALSE
-IsF64N(n)   == IF Has(n, "q") THEN TRUE
+IsF64N(n)   == IF Has(n, "q") \/ Has(n, "d") THEN TRUE
                ELSE IF Has(n, "lm") THEN Landmarks[n.lm].f64 ELSE Has(n, "inf")
+SignN(n)    == IF IsSmallN(n) THEN (IF Nm(n) > 0 THEN 1 ELSE IF Nm(n) < 0 THEN -1 ELSE 0)
+               ELSE IF Coarse(n) > 0 THEN 1 ELSE -1
 
 (***************************************************************************)
 (* Generators (bounded).  Types(d): all types of nesting depth <= d over   *)
